@@ -287,3 +287,47 @@ def new_project(every=3):
         _SONG[0] = Song
     _SONG[1] += 1
     return _SONG[0]() if _SONG[1] % every == 0 else api.Project()
+
+
+def look_at(o):
+    """Read-only helpers an application calls between loading and editing / saving: the play-order view, tabular views, printing,
+    attribute listings.  Looking is not touching."""
+    import rv.api as api
+    done = 0
+    try:
+        repr(o), str(o), bool(o)
+        if isinstance(o, api.Project):
+            try:
+                for i, _ in enumerate(o.pattern_lines()):
+                    if i > 80:
+                        break
+                done += 1
+            except Exception:
+                pass
+            try:
+                for i, _ in enumerate(o.pattern_lines(0, 16)):
+                    pass
+            except Exception:
+                pass
+            for q in o.patterns[:8]:
+                if isinstance(q, api.Pattern):
+                    q.tabular_repr()
+                    repr(q)
+                elif q is not None:
+                    try:
+                        q.source_pattern
+                    except Exception:
+                        pass
+            for m in [x for x in o.modules if x is not None][:8]:
+                repr(m), dir(m), list(m.controllers), list(m.options)
+            try:
+                o.graph if hasattr(o, "graph") else None
+            except Exception:
+                pass
+        else:
+            m = o.module
+            if m is not None:
+                repr(m), dir(m), list(m.controllers), list(m.options)
+    except Exception:
+        pass
+    return done
